@@ -290,14 +290,14 @@ class Analysis:
                         # produce None via `?` (from_residual) or return a derived option
                         ok = cfg.nodes_dominate([ebb], cfg.exits[0]) if cfg.exits else False
                         if ok:
-                            ok = self._failure_paths_yield_none(b, cfg, edges, frontier)
+                            ok = self._failure_paths_yield_none(b, cfg, edges, frontier, ebb)
                     if ok:
                         cur = self.validators.setdefault(b.id, {}).setdefault(key[1], set())
                         if not maps <= cur:
                             cur |= maps
                             changed = True
 
-    def _failure_paths_yield_none(self, b, cfg, edges, frontier):
+    def _failure_paths_yield_none(self, b, cfg, edges, frontier, ebb=None):
         """Blocks reachable without taking a success edge must only assign _0 from from_residual or from a
         combinator applied to a derived option."""
         reach = cfg.reachable(0, removed_edges=edges)
@@ -314,6 +314,8 @@ class Analysis:
             t = bl.term
             if t[0] == 'call' and t[4].local == 0 and not t[4].proj:
                 name = callee(t)[1] or ''
+                if bi == ebb:
+                    continue        # the lookup itself is what the function returns (`fn m(..) -> Option<&V> { map.get(k) }`)
                 if 'FromResidual' in name:
                     continue
                 if name.endswith(COMBINATORS) and t[3] and operand_root(b, t[3][0])[0] in frontier:
